@@ -211,6 +211,18 @@ def run(ctx, eng):
             ok = any(c[0] == 'in' and cm.tuple_items(c[2]) is not None and
                      {cm.const_of(x) for x in cm.tuple_items(c[2])} ==
                      {b':authority', ':authority'} for c in conds)
+    # ... wherever it stands in the block: the scan is not cut short (the
+    # blocks this is called on may not have been validated, and the value
+    # is what a stream advertisement is attributed to)
+    for nd in ast.walk(fi.node):
+        if isinstance(nd, ast.For):
+            for x in ast.walk(nd):
+                if isinstance(x, ast.Break) or (
+                        isinstance(x, ast.Return) and (
+                            x.value is None or (
+                                isinstance(x.value, ast.Constant) and
+                                x.value.value is None))):
+                    ok = False
     ctx.ob('FLOW.authority', fi.qual, 'selects the :authority field', ok,
            'returns the value of :authority (bytes or str spelling)',
            node=fi.node)
